@@ -125,6 +125,10 @@ def regen():
         rc, out = sh([exe, gen], timeout=300)
     if rc != 0:
         raise BuildError("dump_tables failed on the current tree", out[-4000:])
+    # source-text translator for queue.h (access table)
+    rc, out = sh([sys.executable, os.path.join(VERIF, "tools", "gen_queue.py"), REPO, gen], timeout=120)
+    if rc != 0:
+        raise BuildError("gen_queue.py failed on the current tree", out[-4000:])
 
 
 def lake_build(targets, timeout=3600):
